@@ -63,7 +63,13 @@ def x_geom(p):
     import warnings
 
     R, C, V = p["rows"], p["cols"], p["vrows"]
-    if V:
+    if V and p.get("via") == "labware":
+        # a trough built through the generic constructor (legal, emits a UserWarning)
+        with warnings.catch_warnings():
+            warnings.simplefilter("ignore")
+            lw = rt.Labware("L", 1, C, min_volume=0, max_volume=10, virtual_rows=V)
+        idrows = V
+    elif V:
         lw = rt.Trough("L", V, C, min_volume=0, max_volume=10)
         idrows = V
     else:
@@ -98,7 +104,7 @@ def x_geom(p):
                 pos.append(-1)
     rec = {
         "fn": "geom",
-        "id": f"{'T' if V else 'P'}{R}x{C}v{V}",
+        "id": f"{'T' if V else 'P'}{R}x{C}v{V}" + ("/labware" if p.get("via") == "labware" else ""),
         "rows": R,
         "cols": C,
         "vrows": V,
